@@ -1,6 +1,7 @@
 import Nstd.Path.FsCreate
 import Nstd.Path.FsFail
 import Nstd.Path.FsUnlink
+import Nstd.Path.FsCopy
 /-
   Property C19, file-system part: theorems about the algorithms of File.cpp / Directory.cpp
   (Nstd/Path/FsLib.lean) over the ASSUMED POSIX semantics of Nstd/Path/Fs.lean, for all worlds
@@ -19,6 +20,17 @@ theorem file_bytes_exact (ops : List FileOp) (fs : Fs) (fd : Fd) (c : Bytes)
     (runOps fs fd ops).2.1.pos = (specRun fd.acc ⟨c, fd.pos⟩ ops).1.pos ∧
     ∀ q, q ≠ fd.path → (runOps fs fd ops).1.get q = fs.get q :=
   runOps_refines ops fs fd c hdir hp hget
+
+/-- … across copy: a File::copy that reports success (with or without an injected partial transfer) has put
+    exactly the bytes of the source file into the destination file — an existing file or one created where
+    the path was missing — and has changed no other entry of the world. -/
+theorem copy_bytes_exact (fs : Fs) (src dst : Bytes) (fie : Bool) (fault : SfFault)
+    (h : (fileCopy fs src dst fie fault).2.1 = true) :
+    ∃ ps d P, resolve fs src true = .found ps (.file d) ∧ P ≠ [] ∧
+      (fileCopy fs src dst fie fault).1.get P = some (.file d) ∧
+      (∀ q, q ≠ P → (fileCopy fs src dst fie fault).1.get q = fs.get q) ∧
+      ((∃ d0, fs.get P = some (.file d0)) ∨ (∃ pa n, resolve fs dst (!fie) = .missing pa n ∧ P = pa ++ [n])) :=
+  fileCopy_exact fs src dst fie fault h
 
 /-- Directory::create returns true exactly when the directory exists afterwards — for every world,
     every path string and every injected mkdir fault. -/
